@@ -69,6 +69,7 @@ func GoFlock(fd uintptr, filename string) (err error) {
 	if err != nil {
 		return err
 	}
+	verifPoint("flock.tabled", filename)
 
 	return syscall.Flock(int(fd), syscall.LOCK_EX)
 }
